@@ -85,10 +85,13 @@ pub struct Layout {
     /// (std BufReader 8 KiB, flate2 32 KiB): the refill paths run only then
     #[serde(default)]
     pub padding_kb: u8,
+    /// comment lines in front so that a line ends exactly at a buffer boundary of the readers
+    #[serde(default)]
+    pub align: Option<super::align::Align>,
 }
 impl Layout {
     pub fn plain() -> Layout {
-        Layout { seed: 0, five_field: false, comments: false, blank_lines: false, sep: 0, numbers: 0, crlf: false, final_newline: true, n_row_pos: 0, empty_sections: true, padding_kb: 0 }
+        Layout { seed: 0, five_field: false, comments: false, blank_lines: false, sep: 0, numbers: 0, crlf: false, final_newline: true, n_row_pos: 0, empty_sections: true, padding_kb: 0, align: None }
     }
 }
 #[derive(Clone, Debug, Serialize, Deserialize)]
@@ -523,6 +526,17 @@ impl MpsModel {
             }
         }
         let nl = if lay.crlf { "\r\n" } else { "\n" };
+        if let Some(a) = &lay.align {
+            let lens: Vec<usize> = lines.iter().map(|l| l.len()).collect();
+            let mut prng = Rng::new(lay.seed ^ 0xA116);
+            for (k, n) in super::align::pad_lines(a, &lens, nl.len(), lay.final_newline).into_iter().enumerate() {
+                let mut l = String::from("*");
+                for _ in 1..n {
+                    l.push((b'!' + prng.below(90) as u8) as char);
+                }
+                lines.insert(k, l);
+            }
+        }
         let mut s = lines.join(nl);
         if lay.final_newline {
             s.push_str(nl);
@@ -671,5 +685,6 @@ pub fn gen_layout(rng: &mut Rng) -> Layout {
         n_row_pos: rng.below(3) as u8,
         empty_sections: rng.chance(1, 2),
         padding_kb: 0,
+        align: None,
     }
 }
